@@ -40,7 +40,7 @@ def setup():
 
 def known_match(prop, sig):
     for k in common.load_known():
-        if k["property"] == prop and k.get("status") == "open" and k["signature"] == sig:
+        if k["property"] == prop and k.get("status") == "open" and (k["signature"] == sig or sig in k.get("signatures", [])):
             return k
     return None
 
